@@ -27,7 +27,7 @@ RULE = ("random application schemas (1..3 abstract types, 0..4 concrete types im
         "non-implementer / abstract name; distinct by hash of (schema, packages, text sequence).")
 ASSUMPTIONS = [
     "zcv/refload.py is the trusted reference for the vocabulary and implementer tables of one load",
-    "headers that fit more than one slot (U2) are not compared",
+    "headers claimed by more than one slot (zones U1/U2) follow the resolution rule of the pinned tree: first claiming child in declaration order",
     "whether the application schema's own description changes after %import is C13's business (known finding there)",
 ]
 MAIN = "file:///zcv/main.conf"
@@ -60,7 +60,8 @@ def gen_case(rng, pkgbase):
                       "required": False, "handler": None, "type": gen.mixcase(rng, a)})
     if rng.random() < 0.35:
         # a specifically named slot of an abstract type
-        items.append({"kind": "section", "name": "main", "attribute": "named_main", "required": False,
+        items.insert(rng.randrange(len(items) + 1),
+                     {"kind": "section", "name": "main", "attribute": "named_main", "required": False,
                       "handler": None, "type": gen.mixcase(rng, rng.choice(abstract))})
     for t in types:
         if rng.random() < 0.25:
@@ -176,6 +177,9 @@ def gen_text(rng, ast, packages):
     for p in packages.values():
         extra += p["abstract"]
     imports = list(packages) + list(packages) + ["zcv_nosuch_pkg", "os", "xml", "zcv"]
+    # names that are not package names although a package name is in them
+    for p in list(packages)[:2]:
+        imports += [p + ".", "." + p, p + "..", "." + p + ".", p.upper() if p.upper() != p else p + "x"]
     lines = []
     names = ["n1", "n2", "n3", "n4", "n5", "n6", "n7"]
     rng.shuffle(names)
@@ -214,7 +218,7 @@ def compare_sequence(ast, packages, texts):
         import ZConfig.loader
         shared = ZConfig.loader.ConfigLoader(schema)      # one loader object for the whole sequence
         for text in texts:
-            ref = refload.ref_load(ast, {MAIN: text}, MAIN, packages=packages)
+            ref = refload.ref_load(ast, {MAIN: text}, MAIN, packages=packages, pin=True)
             got = loadcheck.real_load(schema, text, url=MAIN)
             again = loadcheck.real_load_with(shared, text, MAIN)
             fl = []
